@@ -86,6 +86,7 @@ type vpCfg struct {
 	HtpasswdGroups     []string `json:"htpasswdGroups"`
 	DisplayLoginForm   bool     `json:"displayLoginForm"`
 	RedirectURL        string   `json:"redirectURL"`
+	ProxyPrefix        string   `json:"proxyPrefix"` // "" => /oauth2
 
 	// provider / token verification
 	StaticKeys           bool     `json:"staticKeys"` // skip discovery, PEM public key file
@@ -340,6 +341,9 @@ func vpNewWorld(cfg *vpCfg) (*vpWorld, error) {
 	o.EncodeState = cfg.EncodeState
 	o.SkipProviderButton = cfg.SkipProviderButton
 	o.ReverseProxy = cfg.ReverseProxy
+	if cfg.ProxyPrefix != "" {
+		o.ProxyPrefix = cfg.ProxyPrefix
+	}
 	if cfg.RealIPHeader != "" {
 		o.RealClientIPHeader = cfg.RealIPHeader
 	}
